@@ -141,6 +141,9 @@ class Cell(object):
                             eff.append((k, 'Add', v.left, s))
                         else:
                             eff.append((k, '=', v, s))
+                            if k in self.atoms and isinstance(v, ast.Constant) and isinstance(v.value, bool) \
+                                    and nf.Matcher().match(self.atoms[k], tt) is not None:
+                                val[k] = v.value          # a later test of the same cell sees the stored flag
                     elif not isinstance(t, ast.Name):
                         raise AnalysisError('%s: store to unreviewed target `%s`' % (self.fi.qualname, short(s)))
                 continue
@@ -159,7 +162,7 @@ class Cell(object):
             val = dict(zip(names, combo))
             val.update(fixed or {})
             try:
-                out[combo] = self.run(stmts, val)
+                out[combo] = self.run(stmts, dict(val))
             except Stop:
                 return None, names
         return out, names
@@ -191,7 +194,13 @@ def _full_range(r, fi, env, loops, label, selfn, bound='%s.n'):
         if res == nf.MATCH:
             continue
         okall = False
-        if isinstance(res, tuple):
+        small = [f for f in ('original_length', 'original_width') if any(cm.is_self_attr(n, selfn, f) for n in ast.walk(it))]
+        if cm.is_call_to(it, 'range') and small:
+            r.violation(label + ': loop range', 'the loop `for %s in %s` runs over self.%s, the size of the *caller\'s* matrix: for a rectangular '
+                        'matrix the padded rows/columns (up to self.n) are skipped, but the steps of the algorithm are defined on the whole '
+                        'padded n x n matrix (a row reduction must shift the whole row, covers/stars/primes live in padding cells too)' % (
+                            lp.target.id, short(it), small[0]), where, expected=want, found=short(it))
+        elif isinstance(res, tuple):
             r.violation(label + ': loop range', 'the loop `for %s in %s` does not run over the whole padded matrix (%s)' % (
                 lp.target.id, short(lp.iter), res[1]), where, expected=want, found=short(it))
         elif cm.is_call_to(it, 'range') and len(it.args) != 1:
@@ -351,7 +360,14 @@ def _step1(r, idx, fi):
     src = cm.deref(fi, call.args[0]) if call.args else None
     row_ok = src is not None and any(nf.match('%s.C[%s]' % (S, i), n) is not None for n in ast.walk(_sub(src, env))
                                      if isinstance(n, ast.Subscript))
-    if nf.callee_name(call) in ('min', 'amin') and row_ok:
+    sliced = src is not None and [n for n in ast.walk(_sub(src, env)) if isinstance(n, ast.Subscript) and isinstance(n.slice, ast.Slice)
+                                  and nf.match('%s.C[%s]' % (S, i), n.value) is not None
+                                  and not (n.slice.lower is None and n.slice.upper is None and n.slice.step is None)]
+    if nf.callee_name(call) in ('min', 'amin') and row_ok and sliced:
+        r.violation(construct, 'the minimum is taken over a part of the row only (`%s`): the amount subtracted is not the minimum of the whole '
+                    'padded row, so padding cells (0) of a tall matrix can become negative or the row is not shifted uniformly' % short(sliced[0]),
+                    lib.loc(fi, mins[0]), expected='min over the whole row self.C[i]', found=short(sliced[0]))
+    elif nf.callee_name(call) in ('min', 'amin') and row_ok:
         r.ok(construct, 'min over row i', lib.loc(fi, mins[0]))
     elif nf.callee_name(call) in ('max', 'amax', 'sum'):
         r.violation(construct, 'the row is reduced by its %s, not by its minimum: entries become negative and no zero marks the cheapest '
@@ -890,23 +906,35 @@ def _resets(r, idx, cc, ep):
     k = lp.target.id
     label = 'Munkres.__clear_covers'
     _full_range(r, cc, env, [lp], label, S)
-    cell = Cell(cc, env, atoms={}, wrong=[], tracked={'rc': '%s.row_covered[%s]' % (S, k), 'cc': '%s.col_covered[%s]' % (S, k)})
-    eff, term = cell.run(lp.body, {})
-    d = {t: nf.const_value(v, '?') for t, op, v, s in eff if op == '='}
-    if term:
-        _early(r, cc, term, label, ('inside the loop', 'covers are not cleared'))
-    elif d.get('rc') is False and d.get('cc') is False:
+    cell = Cell(cc, env, atoms={'rc': '%s.row_covered[%s]' % (S, k), 'cc': '%s.col_covered[%s]' % (S, k)}, wrong=[],
+                tracked={'rc': '%s.row_covered[%s]' % (S, k), 'cc': '%s.col_covered[%s]' % (S, k)})
+    tab, names = cell.table(lp.body)
+    worst = None
+    for combo, (eff, term) in sorted(tab.items(), reverse=True):
+        key = dict(zip(names, combo))
+        d = {t: nf.const_value(v, '?') for t, op, v, s in eff if op == '='}
+        if term and term[0] in ('break', 'return', 'raise'):
+            worst = ('early', term)
+            break
+        after = {x: (d[x] if x in d else key[x]) for x in ('rc', 'cc')}
+        if after['rc'] is not False or after['cc'] is not False:
+            worst = ('left', after)
+            break
+    if worst is None:
         r.ok(label + ': reset', 'all row and column covers False', cc.loc)
+    elif worst[0] == 'early':
+        _early(r, cc, worst[1], label, ('inside the loop', 'covers are not cleared'))
     else:
-        r.violation(label + ': reset', 'after __clear_covers row covers are %r and column covers %r (both must be False)' % (
-            d.get('rc', 'unchanged'), d.get('cc', 'unchanged')), cc.loc, expected='row_covered[i] = col_covered[i] = False')
+        r.violation(label + ': reset', 'after __clear_covers a row cover can be %r and a column cover %r (both must be False)' % (
+            worst[1]['rc'], worst[1]['cc']), cc.loc, expected='row_covered[i] = col_covered[i] = False')
     S = ep.params[0]
     env = _inline(ep)
     lo, li = _nest(ep, 2)
     i, j = lo.target.id, li.target.id
     label = 'Munkres.__erase_primes'
     _full_range(r, ep, env, [lo, li], label, S)
-    cell = Cell(ep, env, atoms={'pr': '%s.marked[%s][%s] == 2' % (S, i, j)},
+    cell = Cell(ep, env, atoms={'pr': '%s.marked[%s][%s] == 2' % (S, i, j), 'rc': '%s.row_covered[%s]' % (S, i),
+                                'cc': '%s.col_covered[%s]' % (S, j)},
                 wrong=[('%s.marked[%s][%s] == 1' % (S, i, j), 'stars are erased instead of primes')],
                 tracked={'m': '%s.marked[%s][%s]' % (S, i, j)}, inner=li)
     tab, names = cell.table(lo.body)
@@ -914,13 +942,27 @@ def _resets(r, idx, cc, ep):
         for msg, e in cell.violations:
             r.violation(label + ': reset', msg + ' (`%s`)' % short(e), ep.loc)
         return
-    p_eff, p_term = tab[(True,)]
-    n_eff, n_term = tab[(False,)]
-    pv = [nf.const_value(v, '?') for t, op, v, s in p_eff if t == 'm']
-    if (p_term and p_term[0] != 'continue') or (n_term and n_term[0] != 'continue'):
-        _early(r, ep, p_term or n_term, label, ('inside the sweep', 'primes are not erased'))
-    elif pv == [0] and not n_eff:
-        r.ok(label + ': reset', 'primes (2) become 0, everything else untouched', ep.loc)
-    else:
-        r.violation(label + ': reset', 'a primed zero becomes %s and other cells %s' % (pv or 'unchanged', 'are changed' if n_eff else 'stay'),
-                    ep.loc, expected='marked == 2 -> 0')
+    bad = False
+    for combo, (eff, term) in sorted(tab.items(), reverse=True):
+        key = dict(zip(names, combo))
+        vals = [nf.const_value(v, '?') for t, op, v, s in eff if t == 'm']
+        if term and term[0] in ('break', 'return', 'raise'):
+            bad = True
+            _early(r, ep, term, label, ('inside the sweep', 'primes are not erased'))
+            break
+        if key['pr'] and vals != [0]:
+            bad = True
+            where_ = 'row %scovered, column %scovered' % ('' if key['rc'] else 'un', '' if key['cc'] else 'un')
+            if not vals:
+                r.violation(label + ': reset', 'a primed zero in a cell with %s is skipped: erasing depends on the covers, but step 5 clears '
+                            'all covers just before it erases the primes, so such primes survive and are followed by the next alternating '
+                            'path' % where_, ep.loc, expected='every cell with marked == 2 becomes 0, unconditionally')
+            else:
+                r.violation(label + ': reset', 'a primed zero (%s) becomes %s instead of 0' % (where_, vals), ep.loc, expected='marked == 2 -> 0')
+            break
+        if not key['pr'] and vals:
+            bad = True
+            r.violation(label + ': reset', 'a cell that is not primed is overwritten with %s' % vals, ep.loc, expected='marked == 2 -> 0')
+            break
+    if not bad:
+        r.ok(label + ': reset', 'primes (2) become 0 in every cell, everything else untouched', ep.loc)
